@@ -3,6 +3,7 @@ import os
 
 import common as C
 import validout
+import c1113x
 
 PROP = "C13"
 NAME = "c13"
@@ -13,7 +14,7 @@ def build(ctx):
     ctx.log("translate", out)
     if not ok:
         ctx.diag.append("translator failed: " + out[-300:])
-    C.prove(ctx, ["Props/C13.v", "Props/C13Valid.v"], ["Oblig/C13Obl.v", "Oblig/ValidRevObl.v"])
+    C.prove(ctx, ["Props/C13.v", "Props/C13Valid.v", "Props/C13General.v"], ["Oblig/C13Obl.v", "Oblig/ValidRevObl.v", "Oblig/C13GenObl.v"])
     ok, out = C.build_harness()
     ctx.log("go build", out)
     if not ok:
@@ -27,6 +28,7 @@ def build(ctx):
     ctx.log("ocaml", out[-3000:])
     if not ok:
         ctx.diag.append("extracted model does not build: " + out[-600:])
+    c1113x.build(ctx, "rev")
     return True
 
 
@@ -49,13 +51,14 @@ def search(ctx, factor):
     oracle(ctx, ctx.scale(8000, 150000) * factor, "search")
     found = ctx.fails[before:]
     del ctx.fails[before:]
-    return found
+    return found + c1113x.search(ctx, "rev", factor)
 
 
 def run(ctx):
     ctx.search = search
     ctx.trusted += ["reversal-table emitter of the translator (switch arms, deltas, flags, service-class ifs of File.Reversal; calculateBatchAmounts lists; StandardTransactionCode and isPrenote lists)",
-                    "hand model of the control swap, description/date rewrite and File.Create re-tabulation (coq/Model/Reversal.v), tied by the extracted-model correspondence"]
+                    "hand model of the control swap, description/date rewrite and File.Create re-tabulation (coq/Model/Reversal.v), tied by the extracted-model correspondence",
+                    "phase 3: the amount rule of ValidAmountForCodes by addenda kind and the OFFSET flag (coq/Model/ReversalGen.v) and the abstraction of generated files (harness/internal/c1113x), tied by the generated-file correspondence incl. the real Validate() of the reversed file for PPD CCD CTX WEB COR"]
     ctx.assumptions += ["validation is modelled as the fragment the property speaks about (service class vs directions, header = control class, control totals = totals by calculateBatchAmounts, standard codes, amount rule of ValidAmountForCodes without options); the full File.Validate is exercised by the oracle only",
                         "batches are of the concrete SEC types NewBatch returns (the `.(*Batch)` rebuild branch of Reversal is dead for them); IAT batches are outside the property",
                         "integers unbounded (amounts up to 10 digits, sums far below 2^63)"]
@@ -74,6 +77,7 @@ def run(ctx):
     else:
         ctx.diag.append("correspondence could not run: " + out[-300:])
     validout.run(ctx, "reversal")
+    ctx.add_summary(c1113x.run(ctx, "rev"), "C13 general (gen files)")
     summ = oracle(ctx, ctx.scale(8000, 150000))
     ctx.add_summary(summ, "File.Reversal oracle")
     if ctx.tier == "thorough":
@@ -81,6 +85,8 @@ def run(ctx):
 
 
 def replay(path):
+    if c1113x.is_case(path):
+        return c1113x.replay(path)
     ok, out = C.build_harness()
     if not ok:
         print(out[-2000:])
